@@ -401,9 +401,12 @@ class ManifestRecursiveLoader:
         (more specific) will always be returned before the Manifests
         for parent directories. The order is otherwise undefined.
         """
+        # within one directory, a Manifest is always loaded after
+        # the Manifest referencing it -- iterate in reverse load order
+        # so that referenced Manifests come first (the sort is stable)
         return sorted(
-                self._iter_unordered_manifests_for_path(
-                    path, recursive=recursive),
+                reversed(list(self._iter_unordered_manifests_for_path(
+                    path, recursive=recursive))),
                 key=lambda kdv: len(kdv[1]),
                 reverse=True)
 
